@@ -15,6 +15,18 @@ var registry = []prop{
 		Assume: pbfAssume,
 	},
 	{
+		ID: "C08", Pkg: "props/c08", Level: "exploration",
+		Quick:  tierCfg{Shards: 1, Scale: 1, TimeoutS: 300},
+		Thor:   tierCfg{Shards: 16, Scale: 4, TimeoutS: 1500},
+		Assume: append([]string{"predicates are pure functions of the element shown (the scanner calls them from several goroutines)"}, pbfAssume...),
+	},
+	{
+		ID: "C09", Pkg: "props/c09", Level: "exploration",
+		Quick:  tierCfg{Shards: 1, Scale: 1, TimeoutS: 300},
+		Thor:   tierCfg{Shards: 16, Scale: 4, TimeoutS: 1500},
+		Assume: pbfAssume,
+	},
+	{
 		ID: "C10", Pkg: "props/c10", Level: "exploration",
 		Quick: tierCfg{Shards: 1, Scale: 1, TimeoutS: 240},
 		Thor:  tierCfg{Shards: 16, Scale: 20, TimeoutS: 1200},
